@@ -1,91 +1,162 @@
 //! Exact-rational model of `rust_decimal::Decimal` (environment stub, see DESIGN.md §3.2).
 //!
-//! value = ±(lo | mid<<32) / (hi or 1), scale 0, stored in the Decimal's own 128 bits, so every
+//! value = ±lo / (hi or 1) (mid must stay 0), scale 0, stored in the Decimal's own 128 bits, so every
 //! untouched real method (`is_zero`, `abs`, `is_sign_negative`, `Neg`, `ZERO/ONE/TWO`,
 //! `From<u64>`) keeps its meaning. Zero is always `+0/1`. Leaving the representable range
-//! (numerator < 2^64, denominator < 2^32) is a failed check, never a wrap.
+//! (|numerator| < 2^28, denominator < 2^16) is a failed check, never a wrap.
 use core::cmp::Ordering;
 use rust_decimal::Decimal;
 
+pub const NUM_BITS: u32 = 28;
+pub const DEN_BITS: u32 = 16;
+const NUM_MASK: u32 = (1 << NUM_BITS) - 1;
+const DEN_MASK: u32 = (1 << DEN_BITS) - 1;
+
+/// Sign, magnitude of the numerator, denominator. The masks are no-ops on in-range values (the range
+/// is asserted first); they make the zero high bits visible to CBMC's constant propagation so that
+/// the 64-bit multipliers below collapse to NUM_BITS x DEN_BITS partial products.
 #[inline]
-pub fn num(d: &Decimal) -> i128 {
-    let b = d.serialize(); // [flags(4) | lo(4) | mid(4) | hi(4)], little endian
-    let lo = u32::from_le_bytes([b[4], b[5], b[6], b[7]]) as i128;
-    let mid = u32::from_le_bytes([b[8], b[9], b[10], b[11]]) as i128;
-    let mag = lo | (mid << 32);
-    if d.is_sign_negative() { -mag } else { mag }
+fn parts(d: &Decimal) -> (bool, u64, u64) {
+    let u = d.unpack();
+    assert!(u.mid == 0 && u.lo <= NUM_MASK, "decmodel: numerator out of range");
+    assert!(u.hi <= DEN_MASK, "decmodel: denominator out of range");
+    assert!(u.scale == 0, "decmodel: scaled constant entered the model");
+    let den = if u.hi == 0 { 1 } else { (u.hi & DEN_MASK) as u64 };
+    (u.negative, (u.lo & NUM_MASK) as u64, den)
 }
 
 #[inline]
-pub fn den(d: &Decimal) -> i128 {
-    let b = d.serialize();
-    let hi = u32::from_le_bytes([b[12], b[13], b[14], b[15]]) as i128;
-    if hi == 0 { 1 } else { hi }
+fn signed(neg: bool, mag: u64) -> i64 {
+    if neg { -(mag as i64) } else { mag as i64 }
 }
 
 #[inline]
-pub fn mk(n: i128, d: i128) -> Decimal {
-    assert!(d > 0 && d < (1i128 << 32), "decmodel: denominator out of range");
+pub fn num(d: &Decimal) -> i64 {
+    let (neg, m, _) = parts(d);
+    signed(neg, m)
+}
+
+#[inline]
+pub fn den(d: &Decimal) -> i64 {
+    parts(d).2 as i64
+}
+
+/// |n| < 2^28 and d < 2^16: every intermediate product below stays under 2^56.
+#[inline]
+pub fn mk(n: i64, d: u64) -> Decimal {
+    assert!(d > 0 && d <= DEN_MASK as u64, "decmodel: denominator out of range");
     let mag = n.unsigned_abs();
-    assert!(mag < (1u128 << 64), "decmodel: numerator out of range");
+    assert!(mag <= NUM_MASK as u64, "decmodel: numerator out of range");
     if mag == 0 {
         return Decimal::ZERO; // zero is always +0/1, so the real is_zero() stays right
     }
     let hi = if d == 1 { 0 } else { d as u32 };
-    Decimal::from_parts(mag as u32, (mag >> 32) as u32, hi, n < 0, 0)
+    Decimal::from_parts(mag as u32, 0, hi, n < 0, 0)
 }
 
 /// Integer-valued Decimal.
 #[inline]
 pub fn int(n: i64) -> Decimal {
-    mk(n as i128, 1)
+    mk(n, 1)
 }
 
 // `'a: 'a` makes the lifetimes early-bound so the generic-parameter count matches the impl being stubbed
 pub fn add<'a: 'a, 'b: 'b>(a: &'a Decimal, b: &'b Decimal) -> Decimal {
-    let (n1, d1, n2, d2) = (num(a), den(a), num(b), den(b));
-    if d1 == d2 { mk(n1 + n2, d1) } else { mk(n1 * d2 + n2 * d1, d1 * d2) }
+    let ((s1, m1, d1), (s2, m2, d2)) = (parts(a), parts(b));
+    if d1 == d2 {
+        mk(signed(s1, m1) + signed(s2, m2), d1)
+    } else {
+        mk(signed(s1, m1 * d2) + signed(s2, m2 * d1), d1 * d2)
+    }
 }
 pub fn sub<'a: 'a, 'b: 'b>(a: &'a Decimal, b: &'b Decimal) -> Decimal {
-    let (n1, d1, n2, d2) = (num(a), den(a), num(b), den(b));
-    if d1 == d2 { mk(n1 - n2, d1) } else { mk(n1 * d2 - n2 * d1, d1 * d2) }
+    let ((s1, m1, d1), (s2, m2, d2)) = (parts(a), parts(b));
+    if d1 == d2 {
+        mk(signed(s1, m1) - signed(s2, m2), d1)
+    } else {
+        mk(signed(s1, m1 * d2) - signed(s2, m2 * d1), d1 * d2)
+    }
 }
 pub fn mul<'a: 'a, 'b: 'b>(a: &'a Decimal, b: &'b Decimal) -> Decimal {
-    mk(num(a) * num(b), den(a) * den(b))
+    let ((s1, m1, d1), (s2, m2, d2)) = (parts(a), parts(b));
+    mk(signed(s1 != s2, m1 * m2), d1 * d2)
 }
 pub fn div<'a: 'a, 'b: 'b>(a: &'a Decimal, b: &'b Decimal) -> Decimal {
-    let (n1, d1, n2, d2) = (num(a), den(a), num(b), den(b));
-    if n2 == 0 {
+    let ((s1, m1, d1), (s2, m2, d2)) = (parts(a), parts(b));
+    if m2 == 0 {
         panic!("Division by zero"); // the real operator panics too
     }
-    if n2 < 0 { mk(-(n1 * d2), d1 * (-n2)) } else { mk(n1 * d2, d1 * n2) }
+    mk(signed(s1 != s2, m1 * d2), d1 * m2)
 }
 pub fn cmp(a: &Decimal, b: &Decimal) -> Ordering {
-    (num(a) * den(b)).cmp(&(num(b) * den(a)))
+    let ((s1, m1, d1), (s2, m2, d2)) = (parts(a), parts(b));
+    if d1 == d2 {
+        signed(s1, m1).cmp(&signed(s2, m2))
+    } else {
+        signed(s1, m1 * d2).cmp(&signed(s2, m2 * d1))
+    }
 }
+/// `Some(parts)` when the value is inside the model's range, `None` otherwise (used by the total `checked_*` models).
+#[inline]
+fn try_parts(d: &Decimal) -> Option<(bool, u64, u64)> {
+    let u = d.unpack();
+    if u.mid == 0 && u.lo <= NUM_MASK && u.hi <= DEN_MASK && u.scale == 0 {
+        let den = if u.hi == 0 { 1 } else { (u.hi & DEN_MASK) as u64 };
+        Some((u.negative, (u.lo & NUM_MASK) as u64, den))
+    } else {
+        None
+    }
+}
+#[inline]
+fn try_mk(neg: bool, mag: u64, d: u64) -> Option<Decimal> {
+    if d == 0 || d > DEN_MASK as u64 || mag > NUM_MASK as u64 {
+        return None;
+    }
+    Some(mk(signed(neg, mag), d))
+}
+
+// The `checked_*` operations of the real library return None on overflow. The model keeps them total:
+// an operand or result outside the model's range (e.g. Decimal::MAX used as an "infinite" marker by the
+// ratio metrics) yields None instead of failing the run. Only unclaimed outputs depend on this.
 pub fn checked_div(a: Decimal, b: Decimal) -> Option<Decimal> {
-    if num(&b) == 0 { None } else { Some(div(&a, &b)) }
+    let ((s1, m1, d1), (s2, m2, d2)) = (try_parts(&a)?, try_parts(&b)?);
+    if m2 == 0 {
+        return None;
+    }
+    try_mk(s1 != s2, m1 * d2, d1 * m2)
 }
 pub fn checked_mul(a: Decimal, b: Decimal) -> Option<Decimal> {
-    Some(mul(&a, &b))
+    let ((s1, m1, d1), (s2, m2, d2)) = (try_parts(&a)?, try_parts(&b)?);
+    try_mk(s1 != s2, m1 * m2, d1 * d2)
 }
 pub fn checked_add(a: Decimal, b: Decimal) -> Option<Decimal> {
+    try_parts(&a)?;
+    try_parts(&b)?;
     Some(add(&a, &b))
 }
 pub fn checked_sub(a: Decimal, b: Decimal) -> Option<Decimal> {
+    try_parts(&a)?;
+    try_parts(&b)?;
     Some(sub(&a, &b))
 }
 
-/// Exact rational equality (cross-multiplied), usable from assertions without going through stubs.
-#[inline]
-pub fn eq(a: &Decimal, b: &Decimal) -> bool {
-    num(a) * den(b) == num(b) * den(a)
-}
-#[inline]
-pub fn lt(a: &Decimal, b: &Decimal) -> bool {
-    num(a) * den(b) < num(b) * den(a)
-}
-#[inline]
-pub fn le(a: &Decimal, b: &Decimal) -> bool {
-    num(a) * den(b) <= num(b) * den(a)
+/// `MathematicalOps::sqrt` as an injective uninterpreted-style function: `x -> x + 1` on in-range
+/// non-negative values (distinguishable from the identity), identity on out-of-range markers, None on
+/// negatives. Harnesses compute their expectation through the same call, so they only assert that the
+/// code applies sqrt to the right argument.
+pub fn sqrt(a: &Decimal) -> Option<Decimal> {
+    match try_parts(a) {
+        None => {
+            if a.is_sign_negative() { None } else { Some(*a) }
+        }
+        Some((neg, m, d)) => {
+            if neg && m != 0 {
+                None
+            } else if m + d > NUM_MASK as u64 {
+                Some(*a)
+            } else {
+                Some(mk((m + d) as i64, d))
+            }
+        }
+    }
 }
